@@ -40,7 +40,7 @@ Print Assumptions c04_wal_unchanged_until_newer_term.
    that announce their term), the log only grows by an Append of a term >= T or by a client write whose entry
    has a term >= T, and a client write is only reported successful for an entry of a term >= T. *)
 Theorem c04_no_old_term_progress : forall T n0 l a n' o,
-  inv n0 -> T <= n_term n0 -> Forall wf_action l -> wf_action a ->
+  inv n0 -> T <= n_term n0 -> Forall wf_action l -> Forall keeps_shard l -> wf_action a ->
   let n := state_after cfg_fixed n0 l in
   step cfg_fixed n a = (n', o) ->
   (forall sid off t, In (sid, off) (o_acks o) -> stream_term n sid = Some t -> 0 <= t -> T <= t) /\
@@ -50,6 +50,17 @@ Theorem c04_no_old_term_progress : forall T n0 l a n' o,
   (forall off, In (off, true) (o_writes o) -> exists e, In e (n_wal n') /\ e_off e = off /\ T <= e_term e).
 Proof. exact no_old_term_progress. Qed.
 Print Assumptions c04_no_old_term_progress.
+
+(* A DeleteShard of a term older than the node's is refused in every residency state of the shard (controller loaded as
+   follower or leader, or not loaded: the stored term decides), and term, log and commit offset stay as they are.
+   (A DeleteShard of a term >= the node's removes the shard, fence included: [keeps_shard] above.) *)
+Theorem c04_delete_shard_older_term_refused : forall c n t, inv n -> t < n_term n ->
+  o_res (snd (step c n (DeleteShardReq t))) = RErr EInvalidTerm /\
+  n_term (fst (step c n (DeleteShardReq t))) = n_term n /\
+  n_wal (fst (step c n (DeleteShardReq t))) = n_wal n /\
+  n_commit (fst (step c n (DeleteShardReq t))) = n_commit n.
+Proof. exact delete_shard_older_term_refused. Qed.
+Print Assumptions c04_delete_shard_older_term_refused.
 
 (* The pinned code (O-5): the reported head is not the end of the log ... *)
 Theorem c04_head_old_refuted :
